@@ -115,3 +115,13 @@ Theorem no_snapshot_missed_refuted :
 Proof.
   exists 5, [LConn; LCommit; LSnap; LConn; LConn]. vm_compute. repeat split. discriminate.
 Qed.
+
+(* the queued push, once handled, is what the connection serves from *)
+Theorem handled_push_is_served g ls :
+  let s := yrun (sys0 g) ls in
+  y_missed s = false -> y_pc s = 3%nat -> y_pending s = None ->
+  y_lpc (handle s) = y_global s /\ y_queue (handle s) = [].
+Proof.
+  intros s Hm Hpc Hp. unfold handle. rewrite Hpc. cbn [Nat.eqb y_lpc y_queue]. split; [|reflexivity].
+  apply (no_snapshot_missed_partial g ls Hm); [fold s; rewrite Hpc; lia|exact Hp].
+Qed.
